@@ -74,6 +74,9 @@ CHECKS = {
             "Fake solvers emulate the three documented I/O conventions; no real solver is installed."),
 }
 
+# properties whose check is finished and registered
+READY = ["C01", "C02", "C03", "C04"]
+
 PENDING_REASON = "claimed by the design (PBT/fuzzing applies) but its check is not built yet in this snapshot; see DESIGN.md section 4"
 
 DESIGN_REF = {p: "DESIGN.md section 4, {}".format(p) for p in CHECKS}
@@ -85,7 +88,7 @@ def main():
     for pid in sorted(CHECKS):
         tech, text, note = CHECKS[pid]
         modfile = os.path.join(HERE, "checks", pid.lower() + ".py")
-        if not os.path.exists(modfile):
+        if pid not in READY or not os.path.exists(modfile):
             na.append({"property_id": pid, "reason": PENDING_REASON})
             continue
         checks.append({
